@@ -24,6 +24,7 @@ def lam(x): return {"e": "lambda", "x": x}
 def comp(v, k, x): return {"e": "comp", "v": v, "k": k, "x": x}
 def comp2(v, w, k): return {"e": "comp2", "v": v, "w": w, "k": k}      # [w for v in IT(k) for w in (v, v)]
 def const(c): return {"e": "const", "c": c}
+def mlstr(zero=False): return {"e": "mlstr", "zero": zero}      # length of a multi-line string literal (its lines are part of the value)
 
 def assign(targets, e): return {"s": "assign", "targets": targets if isinstance(targets, list) else [targets], "e": e}
 def aug(t, e): return {"s": "aug", "t": t, "e": e}
@@ -84,6 +85,9 @@ def p_expr(e, twin):
     if k == "comp2":
         # two for-clauses: the second iterable reads the first clause's loop variable (a name of the comprehension's own scope)
         return f"[{e['w']} for {e['v']} in IT({e['k']}) for {e['w']} in ({e['v']}, {e['v']})]"
+    if k == "mlstr":
+        # the continuation lines are what they are, wherever the statement stands: eight blanks, then none (zero) or twelve
+        return 'len("""first\n        second\n' + ("" if e["zero"] else "            ") + 'third""")'
     if k == "const":
         return repr(e["c"])
     if k == "acc":
